@@ -420,7 +420,7 @@ func runDKG(t *testing.T, rc *RunCtx) {
 	// same time; their messages interleave under the scheduler and both must end as consistent keys.
 	var outB *dkgOutcome
 	pathB := "Wallet 3/genB"
-	if valid && n > 1 && tamper == "" && ch.Pick(4, 0) == 3 {
+	if valid && n > 1 && tamper == "" && ch.Pick(4, 0) == 3 && rc.Param("noconc", "") == "" {
 		outB = c.spawnGenerate(c.Nodes[ch.Pick(len(c.Nodes), 0)], "client2", pathB, uint32(th), uint32(n))
 		rc.Stats.Inc("concurrent_generations", 1)
 	}
